@@ -1046,7 +1046,9 @@ class StrategyBase(Node):
             c.flatten()
 
         if self.fixed_income:
-            if c.position != 0.0:
+            # a sub-strategy has no position of its own: flattening it (above)
+            # is all there is to close
+            if c._issec and c.position != 0.0:
                 c.transact(-c.position, update=update)
         else:
             if c.value != 0.0 and not np.isnan(c.value):
@@ -1058,7 +1060,7 @@ class StrategyBase(Node):
         """
         # go right to base alloc
         if self.fixed_income:
-            [c.transact(-c.position, update=False) for c in self._childrenv if c.position != 0]
+            [self.close(c.name, update=False) for c in self._childrenv]
         else:
             # close each child the way close() does: a sub-strategy is
             # liquidated first and only then is its remaining value (net of the
